@@ -789,6 +789,8 @@ def run_expressions(ctx, rp, n):
         if p is not None:
             progs.append(p)
     results = run_jobs(ctx, [p['job'] for p in progs])
+    from .. import expr_source
+    expr_source.compare(ctx, rp, progs)      # the regenerated eval_new / exact_eval (PyIR inside Coq) against the real methods
     terms, meta = [], []
     for p, r in zip(progs, results):
         r['_index'] = {a: i for i, a in enumerate(p['job']['words'])}
@@ -991,7 +993,12 @@ def regenerate_facts(ctx):
 
 def run(ctx):
     facts_ok = regenerate_facts(ctx)
-    ok = fw.static_proofs(ctx, ['Properties/C12.v'], extra_targets=['Tie/C12_tie.vo'] if facts_ok else [])
+    # source tie of the evaluation recursion: Expr.eval_new / Expr.exact_eval are translated from the current source into the IR
+    # of Model/PyIR.v and proved equal to the hand model (Tie/Expr_tie.v, Properties/C12_source.v)
+    from .. import expr_source
+    src_props, src_targets = expr_source.prepare(ctx)
+    ok = fw.static_proofs(ctx, ['Properties/C12.v'] + src_props,
+                          extra_targets=(['Tie/C12_tie.vo'] if facts_ok else []) + src_targets)
     ctx.coverage['obligations'] += 7                     # the lemmas of Tie/C12_tie.v
     if facts_ok and ok:
         ctx.coverage['discharged'] += 7
